@@ -17,6 +17,8 @@ TEXT = {
  "C12": ("I12 (crossorigin forced to anonymous; sandbox tokens a duplicate-free subset of the policy's list, added empty when missing) checked by TLC; verdict = re-tokenised real output", "4.2, 6/C12"),
  "C07": ("I07: a conforming document (Conforming(p, d): well nested, every tag/attribute/value allowed as it stands, canonical URLs and styles) passes Run unchanged modulo forced attributes; additivity as AnyOf (a value accepted by any rule covering the attribute survives the allowlist stage) and Known (any route allows the element); checked by TLC on fam_conf histories and the attribute families; verdict = byte equality of the real output with the canonical input modulo forced attributes", "4.3, 6/C07"),
  "C20": ("I20: for policies in the stated class (and UGC when no del/ins cite survives) Run(p, Run(p, x)) = Run(p, x) with the output read back (adjacent text merged); I20attrs: SanitizeAttrs is idempotent on its own result (URL normalisation stable, rel tokens not repeated, sandbox/style filters stable); checked by TLC; verdict = Sanitize(Sanitize(x)) == Sanitize(x) on the real code for every replayed and recorded input", "4.3, 6/C20"),
+ "C04": ("the loop machine instantiated with the documented UGC vocabulary constant and with StrictPolicy: I01/I02/I03/I05 give 'only vocabulary, no script/style, allowed schemes', I07 gives the converse; the real UGCPolicy() snapshot is bound to the constant at every build event; verdict = DOM built by an HTML5 parser from the real output inside 11 ordinary containers, judged against the documented vocabulary (elements, attribute names, http/https/mailto/relative URLs)", "4.1, 6/C04, 11"),
+ "C17": ("BM_Policy.tla: every exported builder method as an action on a policy record; MC_Policy checks that rule calls commute, are idempotent and only add, that letter case is irrelevant, that each switch reflects its last setting and that acting on one instance leaves the other unchanged, from every reachable policy; verdict = real snapshots and probe-document outputs: same abstract rule set => identical behaviour, untouched instance unchanged", "4.1, 6/C17"),
  "C09": ("I09 (balance form): no stray end tag, nothing left open when the input is closed; checked by TLC on all histories; verdict = stack-balance of the re-tokenised real output whenever the input balances", "4.3, 6/C09"),
 }
 NOTE = ("trusted: TLC; x/net/html as tokenizer/parser of record; Go regexp, net/url, douceur for fact tables; the harness oracles and concretiser "
